@@ -35,6 +35,9 @@ PROPS = {
 COLD_RUNS = {"C19": {"quick": 300, "thorough": 8000}}
 COLD_BASE = 10000000
 
+import threading
+STOP_CHUNKS = threading.Event()
+
 EXIT_CLASSES = {70: "TERMINATE", 71: "ABORT", 72: "HANG", 77: "SANITIZER", 78: "RACE_TSAN"}
 
 
@@ -353,6 +356,10 @@ def run_chunk(flavour, prop, seed, a, b, wid, outdir, timeout):
     violations, fatals, stats = [], [], []
     cur = a
     while cur < b:
+        # enough has been seen: the check is going to fail anyway (a change that kills the worker on every other run would otherwise
+        # cost one process start, warm-up and symbolizer call per run)
+        if STOP_CHUNKS.is_set() or len(fatals) >= 12:
+            break
         with open(errf, "wb") as ef:
             try:
                 p = subprocess.run([binary(flavour), "run", prop, str(seed), str(cur), str(b), state, hashes], stdout=subprocess.PIPE, stderr=ef, timeout=timeout)
@@ -501,6 +508,7 @@ def cmd_check(prop, tier, runs, jobs, seed):
         raw, stats = [], []
         tw = time.time()
         stop = False
+        STOP_CHUNKS.clear()
         with cf.ThreadPoolExecutor(max_workers=jobs) as pool:
             futs = {}
             it = iter(enumerate(chunks))
@@ -529,6 +537,7 @@ def cmd_check(prop, tier, runs, jobs, seed):
                     stats += s
                     if len(raw) >= 40:
                         stop = True
+                        STOP_CHUNKS.set()
                     if not stop:
                         submit()
         # cold runs (C19): one fresh process per run, no warm-up, the scheduled threads run before the sequential reference
